@@ -294,6 +294,11 @@ func (bc *BasicCluster) getRelevantRegions(region *RegionInfo) (origin *RegionIn
 
 // PreCheckPutRegion checks if the region is valid to put.
 func (bc *BasicCluster) PreCheckPutRegion(region *RegionInfo) (*RegionInfo, error) {
+	// The key index finds a region by its start key and expects it to cover that key: an empty or
+	// inverted range could never be found (and hence never be removed or replaced) again.
+	if len(region.GetEndKey()) > 0 && bytes.Compare(region.GetStartKey(), region.GetEndKey()) >= 0 {
+		return nil, errRegionInvalidRange(region.GetMeta())
+	}
 	origin, overlaps := bc.getRelevantRegions(region)
 	for _, item := range overlaps {
 		if region.GetRegionEpoch().GetVersion() < item.GetRegionEpoch().GetVersion() {
